@@ -274,7 +274,7 @@ impl Check for ReproCheck {
     }
     fn budget(&self, tier: Tier) -> u64 {
         match tier {
-            Tier::Quick => 5_000,
+            Tier::Quick => 10_000,
             Tier::Thorough => 60_000,
         }
     }
